@@ -1306,7 +1306,12 @@ fn get_pendding_opps_since_from_sync(since: u64, dbs: &Arc<Databases>) -> Vec<St
     let mut last_db = "$admin";
     let mut db: &Database = dbs_map.get(last_db).unwrap();
     let mut vec_ops_to_process: Vec<&OpLogRecord> = opps.values().collect();
-    vec_ops_to_process.sort_by(|a, b| a.opp_position.cmp(&b.opp_position)); //sort by insert order
+    // sort by log order: positions restart in every oplog file, the operation time does not
+    vec_ops_to_process.sort_by(|a, b| {
+        a.timestamp
+            .cmp(&b.timestamp)
+            .then(a.opp_position.cmp(&b.opp_position))
+    });
     for op_record in vec_ops_to_process {
         log::debug!("{}", op_record.to_string());
         //@todo sort by key to optmize speed
